@@ -162,6 +162,7 @@ func cmdCheck(args []string) int {
 	reachedSites := map[string]bool{}
 	allSites := map[string]bool{}
 	unrefined := map[string]int{}
+	notesSeen := map[string]bool{}
 	rng := rand.New(rand.NewSource(seed))
 	var samples []interface{}
 
@@ -196,7 +197,12 @@ func cmdCheck(args []string) int {
 			// branches kept on solver-unknown are explored, not pruned: sound, only noted
 		}
 		for _, o := range r.Obligs {
-			nOblig++
+			if o.Extra && o.Status != "violated-candidate" {
+				continue
+			}
+			if !o.Extra {
+				nOblig++
+			}
 			allSites[r.Name+"/"+o.Label] = true
 			switch o.Status {
 			case "folded":
@@ -228,6 +234,12 @@ func cmdCheck(args []string) int {
 		}
 		okLeaves := []*Leaf{}
 		for _, lf := range r.Leaves {
+			for _, n := range lf.Notes {
+				if !notesSeen[n] {
+					notesSeen[n] = true
+					fmt.Printf("NOTE property=%s harness=%s %s\n", id, r.Name, n)
+				}
+			}
 			switch lf.Outcome {
 			case "ok":
 				okLeaves = append(okLeaves, lf)
@@ -437,7 +449,7 @@ func cmdCheck(args []string) int {
 			if perSite[k] == 1 {
 				perSite[k] += unrefined[c.ob.Harness+"/"+c.ob.Label]
 			}
-			if perSite[k]-unrefined[c.ob.Harness+"/"+c.ob.Label] <= 6 {
+			if perSite[k]-unrefined[c.ob.Harness+"/"+c.ob.Label] <= 9 {
 				kept = append(kept, c)
 			}
 		}
@@ -692,6 +704,7 @@ func cmdCheck(args []string) int {
 		"witnesses_skipped_ambient":     ambientSkipped,
 		"ground_facts_learned":          gfCount,
 		"inconclusive":                  nonNil(inconclusive),
+		"notes":                         keys(notesSeen),
 		"known_findings_reproduced":     keys(knownHits),
 		"solver_queries":                stats.Queries,
 		"solver_time_s": map[string]float64{"z3-4.8.12": float64(stats.NanosZ3) / 1e9, "z3-5.1.0": float64(stats.NanosZN) / 1e9, "cvc5-1.0": float64(stats.NanosCV) / 1e9},
